@@ -26,7 +26,7 @@ func c36(c *an.Check) {
 	var bcast *ssa.Alloc
 	cells := map[*ssa.Alloc]string{}
 	var vals *ssa.MakeMap
-	for _, b := range lk.Blocks {
+	for _, b := range an.ScanBlocks(lk) {
 		for _, ins := range b.Instrs {
 			switch x := ins.(type) {
 			case *ssa.Alloc:
@@ -75,7 +75,7 @@ func c36(c *an.Check) {
 	guarded := map[*ssa.Alloc]bool{}
 	users := map[*ssa.Alloc]map[*ssa.Function]bool{}
 	for _, g := range an.WithClosures(lk)[1:] {
-		for _, b := range g.Blocks {
+		for _, b := range an.ScanBlocks(g) {
 			for _, ins := range b.Instrs {
 				var a *ssa.Alloc
 				switch x := ins.(type) {
@@ -109,7 +109,7 @@ func c36(c *an.Check) {
 	nAcc, bad := 0, ""
 	for _, g := range an.WithClosures(lk) {
 		held := g != lk && isHoldLit(g)
-		for _, b := range g.Blocks {
+		for _, b := range an.ScanBlocks(g) {
 			for _, ins := range b.Instrs {
 				var cell *ssa.Alloc
 				isMapOp := false
@@ -161,7 +161,7 @@ func c36(c *an.Check) {
 	// messages that are still being sent outside the lock.
 	nHand, badHand := 0, ""
 	for _, g := range an.WithClosures(lk)[1:] {
-		for _, b := range g.Blocks {
+		for _, b := range an.ScanBlocks(g) {
 			for _, ins := range b.Instrs {
 				st, ok := ins.(*ssa.Store)
 				if !ok {
@@ -181,7 +181,7 @@ func c36(c *an.Check) {
 				// g hands the queue 'from' over to the snapshot 'to'
 				nHand++
 				reset := false
-				for _, b2 := range g.Blocks {
+				for _, b2 := range an.ScanBlocks(g) {
 					for _, ins2 := range b2.Instrs {
 						st2, ok := ins2.(*ssa.Store)
 						if !ok || cellOfAddr(p, st2.Addr) != from {
@@ -223,7 +223,7 @@ func c36(c *an.Check) {
 	find := func(field string) *ssa.Function {
 		var out []*ssa.Function
 		for _, g := range lits {
-			for _, b := range g.Blocks {
+			for _, b := range an.ScanBlocks(g) {
 				for _, ins := range b.Instrs {
 					if _, ok := fieldStoreTrue(ins, field); ok {
 						out = append(out, g)
@@ -267,7 +267,7 @@ func c36(c *an.Check) {
 				}),
 				{Name: "the removed id was a member and was deleted", Holds: func(s *an.State, at ssa.Instruction) bool {
 					member := false
-					for _, b := range g.Blocks {
+					for _, b := range an.ScanBlocks(g) {
 						for _, ins := range b.Instrs {
 							if l, ok := ins.(*ssa.Lookup); ok && l.CommaOk && mapIs(p, l.X, vals) {
 								for _, r := range *l.Referrers() {
@@ -375,7 +375,7 @@ func c36(c *an.Check) {
 		return false
 	}
 	nAdd := 0
-	for _, b := range lk.Blocks {
+	for _, b := range an.ScanBlocks(lk) {
 		for _, ins := range b.Instrs {
 			if call, ok := ins.(*ssa.Call); ok && call.Call.IsInvoke() && call.Call.Method.Name() == "AddDirective" {
 				nAdd++
@@ -476,7 +476,7 @@ func accessResolverReset(c *an.Check) {
 	ok, why, n := false, "resolver or RemoveValue call not found", 0
 	if res != nil {
 		for _, g := range an.WithClosures(res) {
-			for _, b := range g.Blocks {
+			for _, b := range an.ScanBlocks(g) {
 				for _, ins := range b.Instrs {
 					call, isCall := ins.(*ssa.Call)
 					if !isCall || !call.Call.IsInvoke() || call.Call.Method.Name() != "RemoveValue" {
@@ -487,7 +487,7 @@ func accessResolverReset(c *an.Check) {
 					// removal (a predecessor block dominated by the block of the RemoveValue call)
 					v := call.Call.Args[0]
 					ok, why = false, "after RemoveValue(id) the id variable keeps its value: a later 'exists' is taken for 'already attached' and the re-appeared provider is never reported"
-					for _, b2 := range g.Blocks {
+					for _, b2 := range an.ScanBlocks(g) {
 						for _, i2 := range b2.Instrs {
 							ph, isPhi := i2.(*ssa.Phi)
 							if !isPhi {
